@@ -8,6 +8,7 @@
 #      scratch worktree of /repo HEAD (/root/ir-repo-<k>) with a copy of /verif (/root/ir-verif-<k>)
 #      whose harness depends on that worktree - /repo itself is not touched;
 #   3. files it with meta.json (confirmed, caught_by, caught_by_own_check).
+# Only worktrees marked with out/DONE (the sub-agent has reported back) are looked at.
 # Scratch copies are removed at the end.
 OFFSET=${1:?offset}; J=${2:-4}
 export CARGO_NET_OFFLINE=true
@@ -44,7 +45,7 @@ PY
     )
   done
 }
-for d in /tmp/wt-C*; do confirm_wt ${d#/tmp/wt-} & done
+for d in /tmp/wt-C*; do [ -f $d/out/DONE ] && confirm_wt ${d#/tmp/wt-} & done
 wait
 : > /root/ir-list.txt
 for d in /tmp/wt-C*; do CID=${d#/tmp/wt-}; for N in 1 2 3; do
